@@ -455,6 +455,7 @@ class BaseParser:
         # field.all_aliases) - of several accepted keys the first in field.all_aliases is used, as in
         # field_first_parse; for an additional key (None, value, 0)
         conflicts = {}
+        excluded = set()
         dependencies = set()
         unprovided_fields = set()
         options = context.options
@@ -502,7 +503,11 @@ class BaseParser:
             if excluded_keys and name in excluded_keys:
                 continue
 
-            parsed = field.parse_value(value, context=context)
+            parsed = field.parse_value(value, context=context, excluded_as_absent=True)
+            if parsed is field.EXCLUDED:
+                # dropped by the 'exclude' policy: handled below as a field that was not given
+                excluded.add(name)
+                continue
             if unprovided(parsed):
                 continue
 
@@ -516,7 +521,7 @@ class BaseParser:
         # under ignore_required no field is required (is_required), but the defaults of unprovided fields still apply
         for key, field in self.fields.items():
             name = field.attname if as_attname else field.name
-            if name in inputs:
+            if name in inputs and name not in excluded:
                 continue
             if excluded_keys and name in excluded_keys:
                 continue
@@ -636,7 +641,15 @@ class BaseParser:
                 # reported only for a field that does take the input
                 context.handle_error(exc.AliasConflictError(item=name, value=conflict))
 
-            parsed = field.parse_value(value, context=context)
+            parsed = field.parse_value(value, context=context, excluded_as_absent=True)
+            if parsed is field.EXCLUDED:
+                # dropped by the 'exclude' policy: as a field that was not given (its default applies,
+                # it demands no dependencies and satisfies nobody's)
+                unprovided_fields.add(name)
+                default = field.get_default(options, defer=False)
+                if not unprovided(default):
+                    result[name] = default
+                continue
             if unprovided(parsed):
                 continue
 
